@@ -146,9 +146,11 @@ static std::vector<NItem> parse_nested_schema(std::string const &s, size_t &pos)
 }
 
 // true = accepted
-static bool nested_level(std::vector<NItem> const &items, std::string const &conf)
+static bool nested_level(std::vector<NItem> const &items, std::string const &conf);
+
+// the lookups of one level with the parser object p (its registry grows); true = no error so far
+static bool nested_lookups(P &p, std::vector<NItem> const &items, std::string const &conf)
 {
-  P p;
   colvarparse::Parse_Mode const m = colvarparse::parse_silent;
   bool ok = true;
   for (NItem const &it : items) {
@@ -171,6 +173,14 @@ static bool nested_level(std::vector<NItem> const &items, std::string const &con
     }
   }
   if (cvm::get_error() != COLVARS_OK) ok = false;
+  return ok;
+}
+
+// true = accepted
+static bool nested_level(std::vector<NItem> const &items, std::string const &conf)
+{
+  P p;
+  bool ok = nested_lookups(p, items, conf);
   std::string c2(conf);
   if (p.check_keywords(c2, "nested") != COLVARS_OK) ok = false;
   return ok;
@@ -225,6 +235,37 @@ static void unit_loop()
         std::vector<NItem> items = (a[1] == "-") ? std::vector<NItem>() : parse_nested_schema(a[1], pos);
         if (colvarparse::check_braces(conf, 0) != COLVARS_OK) out = "reject";
         else out = nested_level(items, conf) ? "accept" : "reject";
+      } else if (cmd == "PS" || cmd == "MS") {
+        // one parser object over a sequence of texts.  PS: nobody clears it; MS: as colvarmodule::parse_config does
+        // (error while parsing -> clear(); check_keywords clears the registry itself on success; failure -> clear())
+        P p;
+        size_t pos = 0;
+        std::vector<NItem> items = (a[1] == "-") ? std::vector<NItem>() : parse_nested_schema(a[1], pos);
+        std::istringstream cs(a[2]);
+        std::string one;
+        while (std::getline(cs, one, '|')) {
+          cvm::clear_error();
+          bool ok;
+          if (cmd == "PS") {
+            std::string conf = unhex(one);
+            ok = nested_lookups(p, items, conf);
+            std::string c2(conf);
+            if (p.check_keywords(c2, "seq") != COLVARS_OK) ok = false;
+          } else {
+            std::string conf = read_config_lines(p, unhex(one));
+            if (colvarparse::check_braces(conf, 0) != COLVARS_OK) ok = false;
+            else {
+              ok = nested_lookups(p, items, conf);
+              if (!ok) p.clear();
+              else {
+                std::string c2(conf);
+                if (p.check_keywords(c2, "seq") != COLVARS_OK) { ok = false; p.clear(); }
+              }
+            }
+          }
+          out += (out.size() ? " " : "") + std::string(ok ? "accept" : "reject");
+        }
+        if (cmd == "MS") out += (p.data_begin_pos.empty() && p.allowed_keywords.empty()) ? " empty" : " dirty";
       } else if (cmd == "SS") {
         std::vector<std::string> dest;
         colvarparse::split_string(unhex(a[0]), unhex(a[1]), dest);
